@@ -37,7 +37,9 @@ def nat2 (a b : String) : Option (Nat × Nat) := do
 def query (p : Problem K) (o : Obj) (ts : List String) : Option String :=
   let a := answer p o
   match ts with
-  | ["x"] => some (showE (fun (r : Answer K) => showVec r.x) a)
+  | ["x"] => some (showE (fun (r : Answer K) => match r.xErr with
+      | some e => "throw " ++ e.name
+      | none => showVec r.x) a)
   | ["r"] => some (showE (fun (r : Answer K) => showVec r.r) a)
   | ["rtr"] => some (showE (fun (r : Answer K) => "val " ++ Wire.render r.rtr) a)
   | ["defect"] => some (showE (fun (r : Answer K) => s!"int {r.defect}") a)
